@@ -37,5 +37,12 @@ ImporterTail == {Rs(i) : i \in {"fresh", "reused"}} \cup {[op |-> "flatten", str
                 \cup {[op |-> "validate", inst |-> "fresh"], [op |-> "print", auto |-> FALSE, inst |-> "fresh"]}
 ImporterHistories == {<<PS(t), Rs(i), a, b, c>> : t \in Texts, i \in {"fresh", "reused"}, a \in ImporterTail, b \in ImporterTail, c \in ImporterTail}
 EmitImporter == hist = <<>> => \A h \in ImporterHistories : EmitScenario([cmds |-> h])
+\* annotator-centred histories: lookups by identifier and index (unique, duplicated, unknown identifier; index in and out of range),
+\* assignments that cannot work (an item of no model, a null model), a lookup after the model was destroyed - alone, after a parse,
+\* and in pairs (the second call starts from an empty issue list)
+AnnCmds == {[op |-> "lookupIdx", id |-> d, index |-> k, inst |-> "reused"] : d \in {"dup", "uq", "nosuchid"}, k \in {-1, 0, 1, 2, 5}}
+           \cup {[op |-> o, inst |-> "reused"] : o \in {"assignUnowned", "assignNullModel", "lookupExpired"}}
+AnnotatorHistories == {<<c>> : c \in AnnCmds} \cup {<<PS(t), c>> : t \in Texts, c \in AnnCmds} \cup {<<PS(t), c, d>> : t \in Texts, c \in AnnCmds, d \in AnnCmds}
+EmitAnnotator == hist = <<>> => \A h \in AnnotatorHistories : EmitScenario([cmds |-> h])
 EmitExplicit == hist = <<>> => \A h \in GeneratorHistories : EmitScenario([cmds |-> h])
 =============================================================================
